@@ -1,5 +1,5 @@
 (* C19 - Generated fuzzing inputs are always memory-safe, valid request values. *)
-From Ctap Require Import Base Schema Utf8 Typed Arb Inst Tables Limits WireP Utf8P ArbP.
+From Ctap Require Import Base Schema Utf8 Typed Arb Inst Tables Limits WireP Utf8P ArbP FnShapes Shapes ObShapeArb.
 Local Open Scope string_scope.
 Local Open Scope Z_scope.
 
@@ -34,9 +34,15 @@ Proof. vm_compute. reflexivity. Qed.
 Example c19_ex : arbitrary_str 4 [200; 0; 0; 0; 0; 0; 0; 0; 97; 195; 169; 240; 159] = AOk [97; 195; 169] [240; 159].
 Proof. vm_compute. reflexivity. Qed.
 
+(* tie to the source for the hand-modelled procedural code: the bodies of these functions, as regenerated from
+   /repo now, have the shape (literals, operators, calls, control flow, constants) the model was written against *)
+Theorem c19_modelled_functions_unchanged_arb : shapes_hold fn_shapes shapes_arb = true.
+Proof. exact generated_shapes_arb. Qed.
+
 Eval vm_compute in "ASSUMPTIONS c19_bytes". Print Assumptions c19_bytes.
 Eval vm_compute in "ASSUMPTIONS c19_byte_array". Print Assumptions c19_byte_array.
 Eval vm_compute in "ASSUMPTIONS c19_str". Print Assumptions c19_str.
 Eval vm_compute in "ASSUMPTIONS c19_key". Print Assumptions c19_key.
 Eval vm_compute in "ASSUMPTIONS c19_vec". Print Assumptions c19_vec.
 Eval vm_compute in "ASSUMPTIONS c19_capacities". Print Assumptions c19_capacities.
+Eval vm_compute in "ASSUMPTIONS c19_modelled_functions_unchanged_arb". Print Assumptions c19_modelled_functions_unchanged_arb.
